@@ -801,6 +801,23 @@ def compare(rep, d, streams, r, cfg, stats, base_prog, base_res, version, v: Var
         report(f"wrapping an Int literal operand of Substring/Extract/Suffix changes the opcode selection ({v.kind}): first difference {diff}",
                extra, key="C18-wrapped-literal-opcode")
         return execs
+    if differing is not None and not same and version >= 9 and perr is None:
+        # optimiser on by default: the annotation may have inhibited it (known finding) while the OPTIMISED twin shows the
+        # optimiser's own dead-store defect (C03-dead-store-optimised: a deleted store leaves its value on the stack, and under
+        # `proto n 1` retsub returns the bottom-most value).  Witness: without the optimiser both programs are identical,
+        # and the optimised text lost a store that had no load.
+        from c03 import dead_store_deleted
+        ob, ov = compile_real(base_prog, version, scratch_slots=False), compile_real(v.prog, version, scratch_slots=False)
+        if ob[0] == "ok" == ov[0]:
+            s1, s2 = streams.of(ob[1]), streams.of(ov[1])
+            same_off = (delete_nonce(d, s2, s1, v.nonce)[0] is not None) if v.nonce is not None else alpha(s1) == alpha(s2)
+            if same_off and (dead_store_deleted(ob[1], base_teal) or dead_store_deleted(ov[1], var_teal)):
+                stats["optimiser-off:identical, optimised twin has the dead-store defect"] += 1
+                extra["without_optimiser"] = "identical"
+                report(f"an annotation between a store and the load of the same slot inhibits the scratch-slot optimiser ({v.kind}); the "
+                       f"optimised twin deletes a dead store (C03-dead-store-optimised), so the behaviour differs too: {differing[1][:200]}; "
+                       f"streams identical with scratch_slots=False", extra, key="C18-annotation-blocks-slot-optimisation")
+                return execs
     if differing is not None:
         report(f"behaviour changed by an annotation ({v.kind} {str(v.detail)[:100]}): {differing[1][:300]}", extra)
     elif perr is not None and same:
